@@ -27,7 +27,9 @@ RULE = ("(base, overlay document, inputs) triples: overlay documents are generat
         "real Koreo expressions (=inputs.. / =locals.. / =resource..) whose value the harness controls; value-level "
         "overlay pairs; ValueFunctions with value_base None/empty/map; ResourceFunction pipelines (inline or cached "
         "template, <=4 inline/overlayRef overlays with skipIf absent/true/false/computed/non-bool, create.overlay) run "
-        "through the real helpers and through reconcile_resource_function with an in-memory API stub. "
+        "through the real cache (prepare_and_cache), the real helpers and reconcile_resource_function with an in-memory API; "
+        "flow stream: referenced ValueFunctions are offered again, koreo re-prepares the function from its cached spec, "
+        "the target is materialised again with equal inputs. "
         "non-trivial = the overlay shares at least one key with the base or has >=2 leaves; distinct by content")
 ASSUMPTIONS = [
     "Python dicts have unique keys: bases, inputs and overlay documents are well-formed (wf / wf_doc) in every theorem",
@@ -40,7 +42,8 @@ ASSUMPTIONS = [
 ]
 TRUSTED = [
     "the purity clause of C12 is checked by testing only (deep-copy snapshots before/after each evaluation, evaluation repeated)",
-    "harness-local API stub (async_get -> NotFound, call_api records the POST) used for the reconcile_resource_function level",
+    "in-memory API double (harness/cluster.py, or the plugin-local MiniApi stub as fallback) used for the reconcile_resource_function level",
+    "the re-prepare flow relies on koreo.cache's monitor tasks running on the harness event loop (asyncio.sleep(0) yields until the cached function object changes)",
 ]
 
 # level 3 (whole reconcile_resource_function -> POST body): uses the shared harness/cluster.py when it can be
@@ -706,11 +709,15 @@ def _run_rf(R, case):
             return {"prepared": ["template", outcome(t)]}
         templates[name] = t
     spec_passed = rf_spec(case)
-    spec_snap = copy.deepcopy(spec_passed)
     rf = R.run(R.cache.prepare_and_cache(R.ResourceFunction, R.prepare_resource_function,
                                          {"name": RF_NAME, "resourceVersion": "1"}, spec_passed))
     if not isinstance(rf, R.ResourceFunction):
         return {"prepared": ["rf", outcome(rf)]}
+    # snapshots are taken AFTER preparation: what prepare does to a spec (schema defaults are filled in, skipIf is
+    # popped) is not evaluation; from here on nothing may change the function's definition
+    spec_snap = copy.deepcopy(spec_passed)
+    entry0 = R.cache.get_resource_system_data_from_cache(resource_class=R.ResourceFunction, cache_key=RF_NAME)
+    cached_snap = copy.deepcopy(entry0.spec) if entry0 is not None else None
     cfg = rf.crud_config
     if case["steps"] and not isinstance(cfg.overlays, list):
         return {"prepared": ["overlays", outcome(cfg.overlays)]}
@@ -723,7 +730,7 @@ def _run_rf(R, case):
         if spec_passed != spec_snap:
             out.append("the spec dict handed to prepare_and_cache")
         entry = R.cache.get_resource_system_data_from_cache(resource_class=R.ResourceFunction, cache_key=RF_NAME)
-        if entry is None or entry.spec != spec_snap:
+        if entry is None or entry.spec != cached_snap:
             out.append("the function spec held by the cache")
         return out
 
